@@ -4,7 +4,7 @@ from __future__ import annotations
 from hypothesis import strategies as st
 
 from ..driver import Clause, Outcome, HarnessError
-from ..modelgen import lang_and_model
+from ..modelgen import lang_and_model, resolve_spec, corelang_pool, models
 from ..modelstate import typed_state, pairwise_links
 from ..ref_lang import Lang
 from .c01 import generate_graph
@@ -85,8 +85,13 @@ class FakeGraph:
 
 def _install():
     import maltoolbox.ingestors.neo4j as neo
+    import py2neo
     if getattr(neo, 'Graph', None) is not FakeGraph:
         neo.Graph = FakeGraph
+    # whichever way the ingestor reaches the driver class, it must get the stand-in (never a network connection)
+    py2neo.Graph = FakeGraph
+    if hasattr(py2neo, 'database') and hasattr(py2neo.database, 'Graph'):
+        py2neo.database.Graph = FakeGraph
     STORE['nodes'], STORE['rels'], STORE['log'] = [], [], []
     return neo
 
@@ -97,7 +102,9 @@ def _rtype(r):
 
 def check_case(case) -> Outcome:
     out = Outcome()
-    spec, mdesc = case['spec'], case['model']
+    spec, mdesc = resolve_spec(case), case['model']
+    if spec is None:
+        return out
     L = Lang(spec)
     lg, model, objs, g, err, msg = generate_graph(spec, mdesc)
     if err:
@@ -211,6 +218,15 @@ def cases(draw):
     return c
 
 
+@st.composite
+def corelang_cases(draw):
+    from ..modelgen import _restrict, shipped_spec
+    pool = draw(corelang_pool(2, 4))
+    m = draw(models(_restrict(shipped_spec(), pool), max_assets=5, attackers=False, explicit_ids=True, min_assets=1))
+    return {'lang': 'corelang', 'pool': pool, 'model': m}
+
+
 CLAUSES = [
     Clause('export-import', check_case, kind='random', strategy=cases, budget={'quick': 5000, 'thorough': 40000}),
+    Clause('corelang', check_case, kind='random', strategy=corelang_cases, budget={'quick': 240, 'thorough': 3000}),
 ]
